@@ -13,11 +13,17 @@ import (
 // blockUntilSignaled will wait for context cancellation, an unblock signal or timeout
 // This method will return true if we were successfully signalled.
 func blockUntilSignaled(ctx context.Context, c *sync.Cond, timeout time.Duration) bool {
+	c.L.Lock()
+	return blockUntilSignaledLocked(ctx, c, timeout)
+}
+
+// blockUntilSignaledLocked is blockUntilSignaled for a caller that already holds c.L.  The lock is only released once
+// the waiter is registered on the condition, so a Broadcast made under c.L after the caller took the lock is not missed.
+func blockUntilSignaledLocked(ctx context.Context, c *sync.Cond, timeout time.Duration) bool {
 	ready := make(chan struct{})
 
 	go func() {
 		verifPoint("block.spawned")
-		c.L.Lock()
 		defer c.L.Unlock()
 		c.Wait()
 		close(ready)
@@ -88,9 +94,12 @@ func (l *BlockingLimiter) tryAcquire(ctx context.Context) (core.Listener, bool) 
 			return nil, false
 		}
 
-		// try to acquire a new token and return immediately if successful
+		// try to acquire a new token and return immediately if successful.  The condition lock is held from the attempt
+		// until the wait is registered so that a release in between is not missed.
+		l.c.L.Lock()
 		listener, ok := l.delegate.Acquire(ctx)
 		if ok && listener != nil {
+			l.c.L.Unlock()
 			l.logger.Debugf("delegate returned a listener ctx=%v", ctx)
 			return listener, true
 		}
@@ -100,7 +109,7 @@ func (l *BlockingLimiter) tryAcquire(ctx context.Context) (core.Listener, bool) 
 		// - A timeout
 		// - The context is cancelled
 		l.logger.Debugf("Blocking waiting for release or timeout ctx=%v", ctx)
-		if shouldAcquire := blockUntilSignaled(ctx, l.c, l.timeout); shouldAcquire {
+		if shouldAcquire := blockUntilSignaledLocked(ctx, l.c, l.timeout); shouldAcquire {
 			listener, ok := l.delegate.Acquire(ctx)
 			if ok && listener != nil {
 				l.logger.Debugf("delegate returned a listener ctx=%v", ctx)
